@@ -574,6 +574,16 @@ def registry():
             comp = strapdown.Integrator(start, wa).integrate(inc)
             return filters.run_feedforward_filter, [truth, comp, 5.0, 0.5, 0.5, 1.0, gm, am, ms], {'increments': inc, 'time_step': 0.3, 'with_altitude': wa}
         return b
+    # entries whose listed arguments may be given as ONE item instead of a stack: the result must be row 0 of the stacked result
+    for nm, idx in {'earth.principal_radii': (0, 1), 'earth.gravity': (0, 1), 'earth.gravity_n': (0, 1), 'earth.gravitation_ecef': (0,),
+                    'earth.curvature_matrix': (0, 1), 'earth.rate_n': (0,), 'transform.lla_to_ecef': (0,), 'transform.ecef_to_lla': (0,),
+                    'transform.perturb_lla': (0, 1), 'transform.compute_lla_difference': (0, 1), 'transform.mat_en_from_ll': (0, 1),
+                    'transform.mat_from_rph': (0,), 'transform.mat_to_rph': (0,), 'util.skew_matrix': (0,), 'util.mv_prod': (0, 1),
+                    'util.mm_prod': (0, 1), 'util.mm_prod_symmetric': (0, 1), 'util.to_180_range': (0,),
+                    'inertial_sensor.EstimationModel.output_matrix': (0,),
+                    'error_model.InsErrorModel.system_matrices[trajectory]': (0,),
+                    'error_model.InsErrorModel.transform_to_output[trajectory]': (0,)}.items():
+        R[nm]['single'] = idx
     R['filters.run_feedback_filter'] = dict(build=filt('feedback'), forms=('array',), kind='filter')
     R['filters.run_feedforward_filter'] = dict(build=filt('feedforward'), forms=('array',), kind='filter')
     return R
@@ -690,7 +700,37 @@ def run_entry(case, ctx):
             out0 = fn0(*args0, **kw0)
             r = close_forms(out, out0, abs_tol=e.get('form_tol', 0.0))
             ctx.check(r is None, f'forms_disagree:{name}', lambda: f'{name}: form {form} vs {base}: {r}')
+    check_single(ctx, name, case['sub'], form, out)
     ctx.mark_nontrivial(any(isinstance(a, (np.ndarray, pd.DataFrame, pd.Series)) for a in args))
+
+
+def first_item(x):
+    if isinstance(x, (pd.DataFrame, pd.Series)):
+        return x.iloc[0]
+    if isinstance(x, (list, np.ndarray)):
+        return x[0]
+    return x
+
+
+def first_row(out):
+    if isinstance(out, tuple):
+        return tuple(first_row(o) for o in out)
+    if isinstance(out, (pd.DataFrame, pd.Series)):
+        return out.iloc[0]
+    return np.asarray(out)[0]
+
+
+def check_single(ctx, name, sub, form, out_stacked):
+    """single (one item) form of the stackable arguments gives row 0 of the stacked result."""
+    e = get_registry()[name]
+    if 'single' not in e:
+        return
+    fn, args, kw = e['build'](np.random.RandomState(sub), form)
+    args = [first_item(a) if i in e['single'] else a for i, a in enumerate(args)]
+    out1 = ctx.sut(fn, *args, **kw)
+    r = close_forms(out1, first_row(out_stacked))
+    ctx.check(r is None, f'single_form_disagrees:{name}', lambda: f'{name}: one item vs row 0 of the stack (form {form}): {r}')
+    ctx.label('single_vs_stacked_checked')
 
 
 def sweep_strategy():
@@ -702,7 +742,8 @@ def run_sweep(case, ctx):
     for name in names():
         e = get_registry()[name]
         form = e['forms'][case['form'] % len(e['forms'])]
-        execute(ctx, name, case['sub'], form)
+        out, _ = execute(ctx, name, case['sub'], form)
+        check_single(ctx, name, case['sub'], form, out)
     ctx.label(f'entries={len(names())}')
     ctx.mark_nontrivial(True)
 
